@@ -22,8 +22,10 @@ namespace BitSerializer::Detail
 			while (!scope.IsEnd())
 			{
 				TValue value;
-				Serialize(scope, value);
-				hint = cont.insert(hint, std::move(value));
+				// Element can be skipped by policy (mismatched type, overflow), in this case `value` stays uninitialized
+				if (Serialize(scope, value)) {
+					hint = cont.insert(hint, std::move(value));
+				}
 			}
 		}
 		else
